@@ -19,7 +19,7 @@ func init() {
 		Thorough: []Scenario{
 			mk("D1-writers-full-queue", 16, "3", 900), mk("D1b-three-writers", 16, "2", 900), mk("D2-wait-vs-close", 16, "3", 900), mk("D2b-close-then-wait", 16, "3", 900), mk("D3-readers", 16, "3", 900), mk("D4-loading", 16, "3", 900), mk("D5-hybrid", 16, "3", 900), mk("D5b-hybrid-2workers", 16, "2", 900), mk("D6-close-close", 16, "3", 900), mk("D7-close-vs-eviction", 16, "3", 900), mk("D8-close-vs-expiry", 16, "3", 900),
 			mk("D9-close-vs-save", 16, "3", 900), mk("D9b-close-vs-views", 16, "3", 900), mk("D10-hybrid-lookup-delete", 16, "3", 900), mk("D10b-hybrid-loading", 16, "3", 900), mk("D10d-hybrid-get-after-close", 16, "3", 900), mk("D11-no-close-two-waiters", 16, "3", 900), mk("D10c-hybrid-failed-delete", 16, "3", 900),
-			mk("D1d-deleters-full-queue", 16, "3", 900), mk("D1h-hybrid-deleters-full-queue", 16, "3", 900), mk("D1L-loaders-full-queue", 16, "3", 900), mk("D1p-hybrid-promotions-full-queue", 16, "3", 900),
+			mk("D1d-deleters-full-queue", 16, "3", 900), mk("D1h-hybrid-deleters-full-queue", 16, "3", 900), mk("D1L-loaders-full-queue", 16, "3", 900), mk("D1p-hybrid-promotions-full-queue", 16, "3", 900), mk("D1pL-hybrid-loading-promotions-full-queue", 16, "2", 600),
 		},
 	})
 }
